@@ -545,6 +545,7 @@ namespace {
         SockStats s;
         s.fd = fd;
         s.ordinal = static_cast<int>(k.sstats.size());
+        s.opened_at = sim::now_ns();
         k.sstats.push_back(s);
         return s.ordinal;
     }
@@ -875,7 +876,10 @@ int __wrap_close(int fd)
     }
     case File::KStream: {
         Stream* s = static_cast<Stream*>(f);
-        if (s->stats_idx >= 0) k.sstats[static_cast<size_t>(s->stats_idx)].closed = true;
+        if (s->stats_idx >= 0) {
+            k.sstats[static_cast<size_t>(s->stats_idx)].closed = true;
+            k.sstats[static_cast<size_t>(s->stats_idx)].closed_at = sim::now_ns();
+        }
         if (s->conn) conn_close(s->conn, s->side, false);
         break;
     }
